@@ -16,6 +16,17 @@ type Ring struct {
 	Mod   *big.Int
 	names []string
 	ids   map[string]int
+	idem  map[int]bool // variables with x² = x ({0,1}-valued)
+}
+
+// BitVar declares a {0,1}-valued variable: its powers collapse (x² = x).
+func (r *Ring) BitVar(name string) *Poly {
+	id := r.VarID(name)
+	if r.idem == nil {
+		r.idem = map[int]bool{}
+	}
+	r.idem[id] = true
+	return r.Var(name)
 }
 
 func NewRing(mod *big.Int) *Ring { return &Ring{Mod: mod, ids: map[string]int{}} }
@@ -66,7 +77,7 @@ func makeMono(fs []factor) mono {
 	return mono(strings.TrimPrefix(sb.String(), ","))
 }
 
-func mulMono(a, b mono) mono {
+func (r *Ring) mulMono(a, b mono) mono {
 	if a == "" {
 		return b
 	}
@@ -83,6 +94,9 @@ func mulMono(a, b mono) mono {
 	}
 	fs := make([]factor, 0, len(m))
 	for id, e := range m {
+		if r.idem[id] && e > 1 {
+			e = 1
+		}
 		fs = append(fs, factor{id, e})
 	}
 	return makeMono(fs)
@@ -181,7 +195,7 @@ func (p *Poly) Mul(q *Poly) *Poly {
 	r := p.R.Zero()
 	for m1, c1 := range p.terms {
 		for m2, c2 := range q.terms {
-			r.addTerm(mulMono(m1, m2), new(big.Int).Mul(c1, c2))
+			r.addTerm(p.R.mulMono(m1, m2), new(big.Int).Mul(c1, c2))
 		}
 	}
 	return r
@@ -335,4 +349,59 @@ func (p *Poly) render(trunc bool) string {
 		s = s[:400] + "…"
 	}
 	return s
+}
+
+// Monic scales p so that its first term (in canonical order) has coefficient 1
+// (only with a prime modulus); the zero polynomial is returned unchanged.
+func (p *Poly) Monic() *Poly {
+	if p.IsZero() || p.R.Mod == nil {
+		return p.Clone()
+	}
+	var ms []string
+	for m := range p.terms {
+		ms = append(ms, string(m))
+	}
+	sort.Strings(ms)
+	lead := p.terms[mono(ms[0])]
+	inv := new(big.Int).ModInverse(lead, p.R.Mod)
+	return p.Scale(inv)
+}
+
+// ReduceByRule rewrites name^deg -> repl until no term has name to a power >= deg.
+func (p *Poly) ReduceByRule(name string, deg int, repl *Poly) *Poly {
+	id, ok := p.R.ids[name]
+	if !ok {
+		return p.Clone()
+	}
+	cur := p
+	for iter := 0; iter < 10000; iter++ {
+		out := p.R.Zero()
+		changed := false
+		for m, c := range cur.terms {
+			fs := parseMono(m)
+			e := 0
+			var rest []factor
+			for _, f := range fs {
+				if f.id == id {
+					e = f.exp
+				} else {
+					rest = append(rest, f)
+				}
+			}
+			if e < deg {
+				out.addTerm(m, c)
+				continue
+			}
+			changed = true
+			rest = append(rest, factor{id, e - deg})
+			t := p.R.Zero()
+			t.terms[makeMono(rest)] = new(big.Int).Set(c)
+			out = out.Add(t.Mul(repl))
+		}
+		cur = out
+		if !changed {
+			return cur
+		}
+	}
+	return cur
 }
